@@ -221,17 +221,19 @@ class Check:
             self.cov["discharged"] = 0
             return False
         # parse Print Assumptions output
-        blocks = re.findall(r"(Closed under the global context|Axioms:\n(?:.+\n?)+?)(?=\n\S|\Z)", out)
+        closed = out.count("Closed under the global context")
         axioms = set()
-        closed = 0
-        for b in blocks:
-            if b.startswith("Closed"):
-                closed += 1
-            else:
-                for l in b.splitlines()[1:]:
-                    mm = re.match(r"^(\S+)\s*:", l)
-                    if mm:
-                        axioms.add(mm.group(1))
+        in_ax = False
+        for l in out.splitlines():
+            if l.startswith("Axioms:"):
+                in_ax = True
+                continue
+            if in_ax:
+                mm = re.match(r"^([A-Za-z_][\w.']*)\s*:", l)
+                if mm:
+                    axioms.add(mm.group(1))
+                elif l and not l.startswith(" "):
+                    in_ax = False
         self.cov["discharged"] = len(theorems)
         self.notes["print_assumptions"] = {"closed_theorems": closed, "axioms": sorted(axioms)}
         tb = ["Coq 8.16.1 kernel (coqc, full .vo build; vm_compute used, native_compute not used)"]
